@@ -333,6 +333,12 @@ theorem parseInt_digits_exact {base : Nat} (hb : 2 ≤ base) (hb36 : base ≤ 36
        | c :: _ => if StrNum.digitVal c ≥ base then none else some (ParseInt.exact base 0 ds)) :=
   ParseInt.digitsResult_exact hb hb36 ds
 
+/-- **`parseInt(string, radix)` = ECMA-262 parseInt**, for every trimmed text and every radix value: sign, `0x` prefix
+(only for radix 0 or 16), radix validation (2..36), and the exact value of the longest digit prefix whichever path
+(int64 accumulator / math/big) computes it; NaN exactly when the spec says NaN. -/
+theorem parseInt_mech_eq_spec (t : List Nat) (R : Int) : ParseInt.mech t R = ParseInt.spec t R :=
+  ParseInt.mech_eq_spec t R
+
 /-- Regression lemma (seeded change m3: `n > cutoff` for `n >= cutoff`): the accumulator wraps —
 `parseInt("8000000000000000", 16)` would be -2^63; the real loop hands over. -/
 theorem parseInt_gt_prefix_witness :
